@@ -150,5 +150,5 @@ DistSound ==
 \* ---- emission: the central scenario + the assignment (cfg.part[j] = engine of series j)
 Hash(x) == x.p * 7 + (IF x.win = "instant" THEN 3 ELSE 5) + FoldSet(LAMBDA j, acc : acc * 3 + x.asg[j], 0, 1..NSeries) * 11
 ScnOf(x) == Central(x) @@ [cfg |-> [part |-> [j \in 1..NSeries |-> x.asg[j]], engines |-> Cardinality(Engines)]]
-EmitDist == IF Hash(g) % Mod = Seed % Mod THEN Emit(ScnOf(g)) ELSE TRUE
+EmitDist == IF Pick(Hash(g), 0, Mod) = Seed % Mod THEN Emit(ScnOf(g)) ELSE TRUE
 =============================================================================
